@@ -23,6 +23,13 @@ TEMPLATES = {
         "{% for copyright_line in copyright_lines %}\n{{ copyright_line }}\n{% endfor %}\n\n"
         "{% for expression in spdx_expressions %}\nSPDX-License-Identifier: {{ expression }}\n{% endfor %}\n",
     ),
+    # a fixed notice of the template's own next to the loops: the rendered header says more than was asked for (refused as well)
+    "fixedline": (
+        "fixedline.jinja2",
+        "SPDX-FileCopyrightText: 2000 Fixed Notice Of The Template\n{% for copyright_line in copyright_lines %}\n{{ copyright_line }}\n{% endfor %}\n"
+        "{% for contributor_line in contributor_lines %}\nSPDX-FileContributor: {{ contributor_line }}\n{% endfor %}\n\n"
+        "{% for expression in spdx_expressions %}\nSPDX-License-Identifier: {{ expression }}\n{% endfor %}\n",
+    ),
     # information-dropping templates (must be refused)
     "droplic": ("droplic.jinja2", "{% for copyright_line in copyright_lines %}\n{{ copyright_line }}\n{% endfor %}\nLicensed somehow.\n"),
     "dropcop": ("dropcop.jinja2", "{% for expression in spdx_expressions %}\nSPDX-License-Identifier: {{ expression }}\n{% endfor %}\n"),
